@@ -58,7 +58,7 @@ func vfRunCase(t *testing.T, c *vfc20.Case) *vfc20.Run {
 			return
 		}
 		rr := &RdbReplay{Client: cli, RedisVersion: c.Ver, EnableRestore: c.Restore, MaxProtoBulkLen: c.MaxBulk,
-			KeyExists: pol, KeyExistsLog: c.Log}
+			KeyExists: pol, KeyExistsLog: c.Log, ReplaceHashTag: c.HashTag}
 		res.Final = "ok"
 		for _, e := range res.Bins {
 			err := rr.Replay(e)
@@ -91,8 +91,9 @@ func TestVerifC20(t *testing.T) {
 		var kvs []vfc20.KVSpec
 		for _, kv := range c.KVs {
 			kv.DB = 0
-			if !seenK[kv.Key] {
-				seenK[kv.Key] = true
+			tk := string(c.TKey(vfutil.UnHex(kv.Key)))
+			if !seenK[tk] {
+				seenK[tk] = true
 				kvs = append(kvs, kv)
 			}
 		}
@@ -150,6 +151,9 @@ func TestVerifC20(t *testing.T) {
 	}
 	for _, c := range vfc20.ExhaustivePolicyStrings("plain") {
 		run(c, "exhaustive-policy-strings")
+	}
+	for _, c := range vfc20.ExhaustiveHashTag("plain") {
+		run(c, "exhaustive-hashtag")
 	}
 	r := vfutil.NewRand(vfutil.Seed())
 	n := vfutil.Scale(1500, 30000)
